@@ -26,7 +26,11 @@ RULE = (
     "positive and finite; finalize = exp(smoothed iterate) combined by the reducer; (b) the metric after finalize "
     "equals the inverse of the regularised pooled sample (co)variance computed in exact rational arithmetic "
     "(relative tolerance kappa * (1e-9 + 500 eps (1 + |mean|/std))), is invariant under re-partitioning and re-ordering (twice that), and every chain's momentum "
-    "is sqrt(new metric) z for the scripted z; (c) the search returns 2^k whose one-step |dH| and that of the "
+    "is sqrt(new metric) z for the scripted z; (b') the same adapters on real systems (Euclidean, Gaussian-split and both "
+    "constrained classes, all metric types) whose chain states were used for 2-8 Metropolis iterations and had "
+    "further methods evaluated: after finalize every momentum equals sqrt(M_new) z, projected onto the cotangent "
+    "space under M_new for constrained systems, and h / dh_dmom / dh_dpos served for the state equal their values "
+    "from scratch under the new metric; (c) the search returns 2^k whose one-step |dH| and that of the "
     "neighbouring power of two lie on opposite sides of log 2 (recomputed with a fresh integrator) and leaves the "
     "input state untouched. Non-trivial: >= 2 chains or offset/spread > 1e4 or a raising step in the search. "
     "Distinct by SHA-1 of the case JSON."
@@ -92,8 +96,23 @@ def search_case(draw):
             "reg_target": draw(st.sampled_from([None, None, 0.0, -1.0, 0.7, 0]))}
 
 
+@st.composite
+def refresh_case(draw):
+    """Metric adapter on a real system and used chain states (caches populated by sampling)."""
+    spec = draw(zoo.system_spec(classes=zoo.TRACTABLE, max_dim=3, allow_down=True))
+    n = spec["dim"]
+    n_chain = draw(st.integers(1, 3))
+    return {"kind": "refresh", "sys": spec, "int": draw(dyn.integrator_spec(spec["cls"], eps_lo=0.05, eps_hi=0.4)),
+            "adapter": draw(st.sampled_from(["var", "covar"])), "n_chain": n_chain,
+            "q": [draw(vec(n, -1.2, 1.2)) for _ in range(n_chain)], "p": [draw(vec(n, -1.5, 1.5)) for _ in range(n_chain)],
+            "n_iter": draw(st.integers(2, 8)), "n_step": draw(st.integers(1, 3)), "seed": draw(st.integers(0, 2**31)),
+            "z": [draw(vec(n, -2.0, 2.0)) for _ in range(n_chain)],
+            "evaluate": draw(st.lists(st.sampled_from(["h", "dh_dpos", "dh_dmom", "gram", "inv_gram", "h1", "h2"]),
+                                      max_size=3))}
+
+
 def strategy(tier):
-    return st.one_of(step_case(), metric_case(), metric_case(), search_case())
+    return st.one_of(step_case(), metric_case(), metric_case(), search_case(), refresh_case())
 
 
 def selfcheck():
@@ -393,7 +412,98 @@ def run_search(res, case):
                  f"{d_up:.4g}; neither neighbour lies on the other side of log 2")
 
 
+def run_refresh(res, case):
+    """After finalize of a metric adapter the momenta of the (used) chain states are fresh draws under the NEW
+    metric: sqrt(M_new) z, projected onto the cotangent space with respect to M_new for constrained systems."""
+    from mici import adapters as ma
+    from mici import transitions as mt
+    from mici.errors import AdaptationError
+    from mici.states import ChainState
+
+    spec = case["sys"]
+    system, model = zoo.build_system(spec)
+    covar = case["adapter"] == "covar"
+    label = ("covariance" if covar else "variance") + ":refresh"
+    integ = dyn.build_integrator(case["int"], system)
+    tr = mt.MetropolisStaticIntegrationTransition(system, integ, n_step=case["n_step"])
+    ad = (ma.OnlineCovarianceMetricAdapter if covar else ma.OnlineVarianceMetricAdapter)()
+    rng = np.random.default_rng(case["seed"])
+    res.classes += ["metric-refresh", "sys:" + spec["cls"], "adapter:" + case["adapter"]]
+    states, astates = [], []
+    n = spec["dim"]
+    try:
+        for c in range(case["n_chain"]):
+            made = dyn.make_state(model, case["q"][c], case["p"][c], 1)
+            if made is None:
+                res.discarded = True
+                return
+            state = made[0]
+            a = ad.initialize(state, tr)
+            for _ in range(case["n_iter"]):
+                state.mom = system.sample_momentum(state, rng)
+                state, stats = tr.sample(state, rng)
+                ad.update(a, state, stats, tr)
+            for name in case["evaluate"]:      # what trace functions / later transitions would have evaluated
+                if hasattr(system, name):
+                    getattr(system, name)(state)
+            states.append(state)
+            astates.append(a)
+        if not all(np.all(np.isfinite(np.asarray(s_.pos))) for s_ in states):
+            res.discarded = True
+            return
+        rngs = [dyn.BasisRng(z) for z in case["z"]]
+        try:
+            ad.finalize(astates, states, tr, rngs)
+        except AdaptationError:
+            res.discarded = True
+            res.classes.append("discard:adaptation-error")
+            return
+    except Exception as e:  # noqa: BLE001
+        if through_code_under_test(e.__traceback__) is None:
+            raise
+        res.fail(f"C17:{label}:raises:{type(e).__name__}", f"metric adaptation on {spec['cls']} raised {type(e).__name__}: {e}")
+        return
+    res.nontrivial = True
+    M = np.asarray(system.metric.array, dtype=float)
+    if not np.all(np.isfinite(M)) or np.linalg.cond(M) > 1e8:
+        res.discarded = True
+        res.nontrivial = False
+        return
+    S = np.asarray(system.metric.sqrt.array, dtype=float)
+    Minv = np.linalg.inv(M)
+    for c, (st_, z) in enumerate(zip(states, case["z"])):
+        q = np.asarray(st_.pos, dtype=float)
+        ref = S @ np.array(z, dtype=float)
+        if model.con is not None:
+            J = model.con.jac(q)
+            if np.linalg.cond(J @ Minv @ J.T) > 1e8:
+                continue
+            ref = zoo.project_to_cotangent(J, Minv, ref)
+        got = np.asarray(st_.mom, dtype=float)
+        tol = 1e-8 * (1 + np.max(np.abs(S))) * (1 + np.max(np.abs(z))) * max(1.0, np.linalg.cond(M))
+        if not np.max(np.abs(got - ref)) <= tol:
+            off = ""
+            if model.con is not None:
+                off = f"; |J M_new^-1 p| = {float(np.max(np.abs(J @ Minv @ got))):.3e}"
+            res.fail(f"C17:{label}:momentum-not-a-draw-under-the-new-metric" + (":constrained" if model.con is not None else ""),
+                     f"{spec['cls']}, chain {c} (state used for {case['n_iter']} iterations, evaluated {case['evaluate']}): "
+                     f"momentum after finalize differs from sqrt(M_new) z"
+                     f"{' projected onto the cotangent space under M_new' if model.con is not None else ''} by "
+                     f"{float(np.max(np.abs(got - ref))):.3e}{off}")
+            return
+        # values served for the final state must be those of the new metric
+        fresh = ChainState(pos=q.copy(), mom=got.copy(), dir=int(st_.dir))
+        for name in ("h", "dh_dmom", "dh_dpos"):
+            a_, b_ = np.asarray(getattr(system, name)(st_), dtype=float), np.asarray(getattr(system, name)(fresh), dtype=float)
+            if not np.allclose(a_, b_, rtol=1e-9, atol=1e-9 * (1 + np.max(np.abs(b_)))):
+                res.fail(f"C17:{label}:stale-value-after-metric-change:{name}",
+                         f"{spec['cls']}.{name} on chain {c}'s state after finalize is {a_.tolist()}, from scratch under the "
+                         f"new metric {b_.tolist()}")
+                return
+
+
 def run_case(case) -> Result:
     res = Result()
-    {"step": run_step, "var": run_metric, "covar": run_metric, "search": run_search}[case["kind"]](res, case)
+    {"step": run_step, "var": run_metric, "covar": run_metric, "search": run_search,
+     "refresh": run_refresh}[case["kind"]](res, case)
     return res
